@@ -1,6 +1,7 @@
 package scen
 
 import (
+	"context"
 	"encoding/json"
 	"fmt"
 	"strings"
@@ -8,6 +9,7 @@ import (
 
 	ipfslog "berty.tech/go-ipfs-log"
 	"berty.tech/go-ipfs-log/entry"
+	"berty.tech/go-orbit-db/events"
 	"berty.tech/go-orbit-db/iface"
 	"berty.tech/go-orbit-db/stores"
 	datastore "github.com/ipfs/go-datastore"
@@ -97,6 +99,10 @@ type eventMonitor struct {
 	emitted  map[int][]emitRec // per replica, in emission order (EventWrite / EventReplicated only)
 	received map[int][]emitRec // what the stalled bus subscriber has read
 	subs     map[int]event.Subscription
+	legacy   map[int]<-chan events.Event // the store's deprecated channel API (Subscribe)
+	legacyRx map[int][]emitRec
+	cancels  map[int]context.CancelFunc
+	legacyBase map[int]int // number of emissions before the legacy subscription was made
 	written  map[string]bool
 	actWrite map[int]int
 	actRepl  map[int][]string
@@ -114,6 +120,7 @@ func recOf(evt interface{}) (emitRec, bool) {
 
 func installEventMonitor(w *Writers, prop string) {
 	m := &eventMonitor{emitted: map[int][]emitRec{}, received: map[int][]emitRec{}, subs: map[int]event.Subscription{},
+		legacy: map[int]<-chan events.Event{}, legacyRx: map[int][]emitRec{}, cancels: map[int]context.CancelFunc{}, legacyBase: map[int]int{},
 		written: map[string]bool{}, actWrite: map[int]int{}, actRepl: map[int][]string{}}
 	subscribe := func(w *Writers, i int) {
 		sub, err := w.Inst[i].Bus.Subscribe([]interface{}{new(stores.EventWrite), new(stores.EventReplicated)}, eventbus.BufSize(1))
@@ -125,6 +132,23 @@ func installEventMonitor(w *Writers, prop string) {
 		m.subs[i] = sub
 		m.mu.Unlock()
 	}
+	// legacy channel subscribers are attached to the store object (after it has been opened)
+	subscribeLegacy := func(w *Writers, i int) {
+		if i >= len(w.Stores) || w.Stores[i] == nil {
+			return
+		}
+		m.mu.Lock()
+		if c := m.cancels[i]; c != nil {
+			c()
+		}
+		ctx, cancel := context.WithCancel(context.Background())
+		m.cancels[i] = cancel
+		m.legacy[i] = w.Stores[i].Subscribe(ctx)
+		m.legacyRx[i] = nil
+		m.legacyBase[i] = len(m.emitted[i])
+		m.mu.Unlock()
+	}
+	w.Scratch["subscribeLegacy"] = subscribeLegacy
 	w.OnRestart = append(w.OnRestart, func(w *Writers, i int) {
 		m.mu.Lock()
 		m.emitted[i], m.received[i] = nil, nil
@@ -223,9 +247,60 @@ func installEventMonitor(w *Writers, prop string) {
 			}
 			_ = sim.Quiesce()
 		}
+		// the legacy channel subscriber reads everything that has been delivered to it so far
+		if a[0] == 'L' || a[0] == 'S' {
+			for i := range w.Stores {
+				if a[1] == byte('0'+i) {
+					subscribeLegacy(w, i) // new store object after a restart
+				}
+			}
+		}
+		for round := 0; round < 64; round++ {
+			progress := false
+			m.mu.Lock()
+			chans := map[int]<-chan events.Event{}
+			for i, c := range m.legacy {
+				chans[i] = c
+			}
+			m.mu.Unlock()
+			for i, c := range chans {
+				for {
+					select {
+					case evt, ok := <-c:
+						if !ok {
+							goto nextLegacy
+						}
+						if rec, ok := recOf(evt); ok {
+							m.mu.Lock()
+							m.legacyRx[i] = append(m.legacyRx[i], rec)
+							m.mu.Unlock()
+						}
+						progress = true
+						continue
+					default:
+					}
+					break
+				}
+			nextLegacy:
+			}
+			if !progress {
+				break
+			}
+			_ = sim.Quiesce()
+		}
 		m.mu.Lock()
 		defer m.mu.Unlock()
 		for i := range w.Stores {
+			if _, has := m.legacy[i]; has && a[0] != 'L' && a[0] != 'S' {
+				// events emitted since the legacy subscription was made
+				em := m.emitted[i]
+				if n := len(em) - len(m.legacyRx[i]); n >= 0 && m.legacyBase[i] <= len(em) {
+					if fmt.Sprint(em[m.legacyBase[i]:]) != fmt.Sprint(m.legacyRx[i]) {
+						w.pending = append(w.pending, explore.Violation{Property: prop, Signature: "legacy-channel-subscriber-sequence-differs",
+							Detail: fmt.Sprintf("replica %d: emitted since subscription %v, legacy channel received %v", i, em[m.legacyBase[i]:], m.legacyRx[i])})
+					}
+				}
+			}
 			if fmt.Sprint(m.emitted[i]) != fmt.Sprint(m.received[i]) {
 				w.pending = append(w.pending, explore.Violation{Property: prop, Signature: "bus-subscriber-sequence-differs",
 					Detail: fmt.Sprintf("replica %d: emitted %d events, slow subscriber received %d: %v vs %v", i, len(m.emitted[i]), len(m.received[i]), m.emitted[i], m.received[i])})
@@ -271,7 +346,7 @@ func installEventMonitor(w *Writers, prop string) {
 func init() {
 	explore.Register(&explore.CheckDef{
 		ID: "C16", Level: "model_checking",
-		Rule: "Part A: explicit-state DFS over write/merge/announce/restart histories (three store types); a monitor running synchronously inside every EventWrite/EventReplicated emission requires the announced entries to be in the log, the view to equal the replay of the log, and the cached heads to cover them; exactly one write event per write, a replicated event for every merged batch; a bus subscriber with a 1-slot buffer that only reads between actions must receive exactly the emission sequence. Part B: every interleaving (deviation-bounded DFS, all executions run to completion) of producer, the legacy emitter's reader and drain goroutines at their three schedule points, and the consumer, after the 16-slot delivery channel has been filled; the subscriber must receive 1..n exactly. Non-trivial = executions with at least one deviation from the canonical schedule / states with merged writers.",
+		Rule: "Part A: explicit-state DFS over write/merge/announce/restart histories (three store types); a monitor running synchronously inside every EventWrite/EventReplicated emission requires the announced entries to be in the log, the view to equal the replay of the log, and the cached heads to cover them; exactly one write event per write, a replicated event for every merged batch; a bus subscriber with a 1-slot buffer and a subscriber on the store's legacy channel API, both reading only between actions, must receive exactly the emission sequence. Part B: every interleaving (deviation-bounded DFS, all executions run to completion) of producer, the legacy emitter's reader and drain goroutines at their three schedule points, and the consumer, after the 16-slot delivery channel has been filled; the subscriber must receive 1..n exactly. Non-trivial = executions with at least one deviation from the canonical schedule / states with merged writers.",
 		Units: func(tier string) []explore.Unit {
 			var u []explore.Unit
 			d := 4
@@ -348,9 +423,12 @@ func init() {
 			runC01Unit(c, "C16", func(w *Writers, a C01Arg) {
 				installEventMonitor(w, "C16")
 				sub := w.Scratch["subscribe"].(func(*Writers, int))
+				subL := w.Scratch["subscribeLegacy"].(func(*Writers, int))
 				for i := range w.Inst {
 					sub(w, i)
+					subL(w, i)
 				}
+				_ = sim.Quiesce()
 			})
 		},
 		Assumptions: []string{
